@@ -422,4 +422,66 @@ theorem compile_general_sem {inputs : List String} {defs : List (String × BExp)
     (fun hu => List.mem_filterMap.mpr ⟨r, hrr hu, hq⟩)]
   exact hval
 
+/-! ### the general class contains the straight-line classes -/
+
+mutual
+theorem wfExpG_of_wfExpW {scope : List String} : ∀ e : BExp, wfExpW scope false e = true → wfExpG scope e = true
+  | .sym _, h => by simpa [wfExpW, wfExpG] using h
+  | .tt, _ => rfl
+  | .ff, _ => rfl
+  | .not a, h => by
+    have h' : wfExpW scope false a = true := by simpa [wfExpW] using h
+    simpa [wfExpG] using wfExpG_of_wfExpW a h'
+  | .and l, h => by
+    have h' : wfExpListW scope false l = true := by simpa [wfExpW] using h
+    simpa [wfExpG] using wfExpListG_of_wfExpListW l h'
+  | .or l, h => by
+    simp only [wfExpW, Bool.and_eq_true, Bool.or_eq_true, Bool.false_eq_true, false_or] at h
+    simp only [wfExpG, Bool.and_eq_true]
+    exact ⟨wfExpListG_of_wfExpListW l h.1, h.2⟩
+  | .xor l, h => by
+    simp only [wfExpW, Bool.and_eq_true, Bool.or_eq_true, Bool.false_eq_true, false_or] at h
+    simp only [wfExpG, Bool.and_eq_true]
+    exact ⟨⟨wfExpListG_of_wfExpListW l h.1.1, h.1.2⟩, h.2⟩
+  | .ite _ _ _, h => by simp [wfExpW] at h
+  | .imp _ _, h => by simp [wfExpW] at h
+theorem wfExpListG_of_wfExpListW {scope : List String} : ∀ l : List BExp, wfExpListW scope false l = true →
+    wfExpListG scope l = true
+  | [], _ => rfl
+  | a :: as, h => by
+    simp only [wfExpListW, Bool.and_eq_true] at h
+    simp only [wfExpListG, Bool.and_eq_true]
+    exact ⟨wfExpG_of_wfExpW a h.1, wfExpListG_of_wfExpListW as h.2⟩
+end
+
+theorem genDefs_of_slDefsW : ∀ (defs : List (String × BExp)) (scope : List String),
+    slDefsW scope defs = true → genDefs scope defs = true
+  | [], _, _ => rfl
+  | (r, e) :: rest, scope, h => by
+    simp only [slDefsW, Bool.and_eq_true, Bool.not_eq_true', List.contains_eq_mem, decide_eq_false_iff_not] at h
+    obtain ⟨⟨⟨hres, hnr⟩, hwf⟩, hrest⟩ := h
+    simp only [genDefs, Bool.and_eq_true, Bool.not_eq_true']
+    refine ⟨⟨⟨hres, wfExpG_of_wfExpW e hwf⟩, ?_⟩, genDefs_of_slDefsW rest _ hrest⟩
+    cases e with
+    | not a =>
+      cases a with
+      | sym n =>
+        simp only [selfNot, beq_eq_false_iff_ne, ne_eq]
+        rintro rfl
+        exact hnr (by simpa [wfExpW] using hwf)
+      | _ => rfl
+    | _ => rfl
+
+/-- the class of `C02_fragment_named_wide` (hence `inFragmentNamed`, `inFragmentMulti`) lies in the general class -/
+theorem inGeneral_of_inFragmentNamedW {inputs : List String} {defs : List (String × BExp)} {rets : List String}
+    (h : inFragmentNamedW inputs defs rets = true) : inGeneral inputs defs rets = true := by
+  simp only [inFragmentNamedW, Bool.and_eq_true] at h
+  simp only [inGeneral, Bool.and_eq_true]
+  refine ⟨⟨h.1.1.1, genDefs_of_slDefsW _ _ h.1.1.2⟩, ?_⟩
+  have := h.2
+  simp only [List.all_eq_true] at this ⊢
+  intro r hr
+  simp only [Bool.or_eq_true]
+  exact Or.inr (this r hr)
+
 end QV.Compiler
